@@ -96,7 +96,7 @@ class World:
 
     def store_name(self, s, src):
         nm = '%s-%s' % (s, srcname(src))
-        return {'pct': 'p%41%zz-' + nm, 'punct': 'a =#;b-' + nm}.get(self.val, nm)
+        return {'pct': 'p%41%zz-' + nm, 'punct': 'a =b #1 ;c-' + nm}.get(self.val, nm)
 
     def foreign(self, s, src):
         return s == 'tpm' and self.val == 'foreigntpm' and src['k'] != 'def'
